@@ -138,7 +138,7 @@ def run_tlc(module, cfg, workers=8, timeout=1800, env=None, coverage=False, extr
         r.violated.append("<assumption>")
     r.printed = re.findall(r"^(<<.*>>|\".*\"|\[.*\])$", out, flags=re.M)
     if coverage:
-        for m in re.finditer(r"^<(\w+) line \d+, col \d+ to line \d+, col \d+ of module (\w+)>: (\d+):(\d+)", out, flags=re.M):
+        for m in re.finditer(r"^<(\w+) line \d+, col \d+ to line \d+, col \d+ of module (\w+)(?: \([\d ]+\))?>: (\d+):(\d+)", out, flags=re.M):
             name = m.group(1)
             c = r.coverage.get(name, (0, 0))
             r.coverage[name] = (c[0] + int(m.group(4)), c[1] + int(m.group(3)))
